@@ -308,6 +308,14 @@ def streams(ck: Check) -> None:
         ck.count(stream)
         ck.count(f"slack_pairs_{max(0, (len(x) - 2 * t.base) // 2)}" if len(x) >= 2 * t.base else "too_short")
         if res is None:
+            # C: every vector of admissible length with entries in [-1, 1] must decode (property text; theorems
+            # phase1_terminates / decode_succeeds): an IndexError on such a vector is a violation with that vector
+            admissible = in_range and len(x) >= 2 * t.base and (len(x) - 2 * t.base) % 2 == 0 \
+                and all(-1.0 <= float(v) <= 1.0 for v in x)
+            ck.spec(not admissible, "decode_raises",
+                    "decode raised IndexError on a vector of admissible length with entries in [-1, 1]",
+                    {"template": t.name, "W": t.W, "H": t.H, "min_bins": t.k, "n_items": t.n,
+                     "template_items": t.items, "x_repr": repr(list(x))[:1500]})
             line = f"igen {t.W} {t.H} {t.k} {t.n} ; {xfield(x)} ;  ; "
             ops.append(line)
             expect.append(("igen", stream, "OOB", None))
